@@ -163,14 +163,26 @@ pub fn humanize(c: &CanonicalAddr) -> String {
 /// One contract's key/value store.  Interior mutability (every access borrows only for its own
 /// duration) lets the executing contract write through a `StoreRef` while queries issued during
 /// the same call read the same, current, data through another `StoreRef` -- the wasmd behaviour.
+///
+/// `version` identifies the content: it is replaced by a fresh, process-wide unique number on
+/// every mutation and copied by `clone`, so two stores with equal non-zero versions have equal
+/// content (version 0 = never written = empty).  Used only by the dump memoisation.
 #[derive(Clone, Default, Debug)]
 pub struct Store {
     map: RefCell<BTreeMap<Vec<u8>, Vec<u8>>>,
+    version: std::cell::Cell<u64>,
+}
+
+static NEXT_VERSION: std::sync::atomic::AtomicU64 = std::sync::atomic::AtomicU64::new(1);
+
+fn fresh_version() -> u64 {
+    NEXT_VERSION.fetch_add(1, std::sync::atomic::Ordering::Relaxed)
 }
 
 impl Store {
     pub fn clear(&self) {
         self.map.borrow_mut().clear();
+        self.version.set(fresh_version());
     }
     pub fn is_empty(&self) -> bool {
         self.map.borrow().is_empty()
@@ -178,36 +190,20 @@ impl Store {
     pub fn len(&self) -> usize {
         self.map.borrow().len()
     }
+    pub fn version(&self) -> u64 {
+        self.version.get()
+    }
     /// raw copy of the content (debugging / later tooling)
     pub fn entries(&self) -> Vec<(Vec<u8>, Vec<u8>)> {
         self.map.borrow().iter().map(|(k, v)| (k.clone(), v.clone())).collect()
     }
-}
-
-impl PartialEq for Store {
-    fn eq(&self, other: &Self) -> bool {
-        *self.map.borrow() == *other.map.borrow()
+    fn raw_get(&self, key: &[u8]) -> Option<Vec<u8>> {
+        self.map.borrow().get(key).cloned()
     }
-}
-impl Eq for Store {}
-
-/// `cosmwasm_std::Storage` view of a `Store`.
-pub struct StoreRef<'a>(pub &'a Store);
-
-impl<'a> Storage for StoreRef<'a> {
-    fn get(&self, key: &[u8]) -> Option<Vec<u8>> {
-        self.0.map.borrow().get(key).cloned()
-    }
-
-    fn range<'b>(
-        &'b self,
-        start: Option<&[u8]>,
-        end: Option<&[u8]>,
-        order: Order,
-    ) -> Box<dyn Iterator<Item = Record> + 'b> {
+    fn raw_range(&self, start: Option<&[u8]>, end: Option<&[u8]>, desc: bool) -> Vec<Record> {
         if let (Some(s), Some(e)) = (start, end) {
             if s >= e {
-                return Box::new(std::iter::empty());
+                return Vec::new();
             }
         }
         let lo = match start {
@@ -218,11 +214,116 @@ impl<'a> Storage for StoreRef<'a> {
             Some(e) => Bound::Excluded(e.to_vec()),
             None => Bound::Unbounded,
         };
-        let m = self.0.map.borrow();
+        let m = self.map.borrow();
         let mut v: Vec<Record> = m.range((lo, hi)).map(|(k, v)| (k.clone(), v.clone())).collect();
-        if let Order::Descending = order {
+        if desc {
             v.reverse();
         }
+        v
+    }
+}
+
+impl PartialEq for Store {
+    fn eq(&self, other: &Self) -> bool {
+        *self.map.borrow() == *other.map.borrow()
+    }
+}
+impl Eq for Store {}
+
+// ---- read tracking (for the sound memoisation of dump fragments, see dump.rs) ---------------
+
+/// One storage read performed while tracking was on, with its result.
+#[derive(Clone, Debug, PartialEq, Eq)]
+pub enum Read {
+    Get { store: u8, key: Vec<u8>, val: Option<Vec<u8>> },
+    Range { store: u8, start: Option<Vec<u8>>, end: Option<Vec<u8>>, desc: bool, res: Vec<Record> },
+}
+
+#[derive(Debug, Default)]
+pub struct TrackState {
+    pub reads: Vec<Read>,
+    /// something other than contract storage was consulted (bank, staking, stub contracts, ...)
+    pub env: bool,
+}
+
+thread_local! {
+    static TRACK: RefCell<Option<TrackState>> = const { RefCell::new(None) };
+}
+
+pub fn track_begin() {
+    TRACK.with(|t| *t.borrow_mut() = Some(TrackState::default()));
+}
+pub fn track_end() -> TrackState {
+    TRACK.with(|t| t.borrow_mut().take()).unwrap_or_default()
+}
+fn note_env() {
+    TRACK.with(|t| {
+        if let Some(s) = t.borrow_mut().as_mut() {
+            s.env = true;
+        }
+    });
+}
+fn note_read(r: impl FnOnce() -> Read) {
+    TRACK.with(|t| {
+        if let Some(s) = t.borrow_mut().as_mut() {
+            s.reads.push(r());
+        }
+    });
+}
+
+impl Read {
+    /// does the read give the same result in `w` now?
+    pub fn still_valid(&self, w: &World) -> bool {
+        match self {
+            Read::Get { store, key, val } => {
+                w.stores[*store as usize].map.borrow().get(key.as_slice()) == val.as_ref()
+            }
+            Read::Range { store, start, end, desc, res } => {
+                w.stores[*store as usize].raw_range(start.as_deref(), end.as_deref(), *desc) == *res
+            }
+        }
+    }
+    pub fn store(&self) -> u8 {
+        match self {
+            Read::Get { store, .. } | Read::Range { store, .. } => *store,
+        }
+    }
+}
+
+/// `cosmwasm_std::Storage` view of contract `idx`'s `Store`.
+pub struct StoreRef<'a> {
+    store: &'a Store,
+    idx: u8,
+}
+
+impl<'a> StoreRef<'a> {
+    pub fn new(w: &'a World, idx: usize) -> StoreRef<'a> {
+        StoreRef { store: &w.stores[idx], idx: idx as u8 }
+    }
+}
+
+impl<'a> Storage for StoreRef<'a> {
+    fn get(&self, key: &[u8]) -> Option<Vec<u8>> {
+        let v = self.store.raw_get(key);
+        note_read(|| Read::Get { store: self.idx, key: key.to_vec(), val: v.clone() });
+        v
+    }
+
+    fn range<'b>(
+        &'b self,
+        start: Option<&[u8]>,
+        end: Option<&[u8]>,
+        order: Order,
+    ) -> Box<dyn Iterator<Item = Record> + 'b> {
+        let desc = matches!(order, Order::Descending);
+        let v = self.store.raw_range(start, end, desc);
+        note_read(|| Read::Range {
+            store: self.idx,
+            start: start.map(|s| s.to_vec()),
+            end: end.map(|s| s.to_vec()),
+            desc,
+            res: v.clone(),
+        });
         Box::new(v.into_iter())
     }
 
@@ -230,11 +331,13 @@ impl<'a> Storage for StoreRef<'a> {
         if value.is_empty() {
             panic!("Value must not be empty in Storage::set");
         }
-        self.0.map.borrow_mut().insert(key.to_vec(), value.to_vec());
+        self.store.map.borrow_mut().insert(key.to_vec(), value.to_vec());
+        self.store.version.set(fresh_version());
     }
 
     fn remove(&mut self, key: &[u8]) {
-        self.0.map.borrow_mut().remove(key);
+        self.store.map.borrow_mut().remove(key);
+        self.store.version.set(fresh_version());
     }
 }
 
@@ -484,6 +587,33 @@ pub fn stub_convert(amount: u128, rate: u128) -> Option<u128> {
 }
 
 // ---------------------------------------------------------------------------------------------
+// Panic containment
+// ---------------------------------------------------------------------------------------------
+
+thread_local! {
+    static QUIET: std::cell::Cell<u32> = const { std::cell::Cell::new(0) };
+}
+
+/// Install a panic hook that stays silent for panics raised inside `guarded` sections (contract
+/// code) and behaves like the default hook elsewhere (harness bugs stay visible).
+pub fn install_panic_hook() {
+    let default = std::panic::take_hook();
+    std::panic::set_hook(Box::new(move |info| {
+        if QUIET.with(|q| q.get()) == 0 {
+            default(info);
+        }
+    }));
+}
+
+/// Run contract code; a panic becomes `Err(())`.
+pub fn guarded<T>(f: impl FnOnce() -> T) -> Result<T, ()> {
+    QUIET.with(|q| q.set(q.get() + 1));
+    let r = catch_unwind(AssertUnwindSafe(f));
+    QUIET.with(|q| q.set(q.get() - 1));
+    r.map_err(|_| ())
+}
+
+// ---------------------------------------------------------------------------------------------
 // Contract entry-point dispatch
 // ---------------------------------------------------------------------------------------------
 
@@ -492,7 +622,7 @@ type ExecOut = Result<Response<Empty>, String>;
 fn call_execute(w: &World, idx: usize, env: Env, info: MessageInfo, msg: &Binary) -> ExecOut {
     let api = api();
     let querier = WorldQuerier { w };
-    let mut storage = StoreRef(&w.stores[idx]);
+    let mut storage = StoreRef::new(w, idx);
     let deps = DepsMut { storage: &mut storage, api: &api, querier: QuerierWrapper::new(&querier) };
     match idx {
         HUB => {
@@ -531,7 +661,7 @@ fn call_execute(w: &World, idx: usize, env: Env, info: MessageInfo, msg: &Binary
 fn call_query(w: &World, idx: usize, msg: &Binary) -> Result<Binary, String> {
     let api = api();
     let querier = WorldQuerier { w };
-    let storage = StoreRef(&w.stores[idx]);
+    let storage = StoreRef::new(w, idx);
     let deps = Deps { storage: &storage, api: &api, querier: QuerierWrapper::new(&querier) };
     let env = w.env(ADDRS[idx]);
     match idx {
@@ -572,9 +702,9 @@ pub fn query_contract_raw(w: &World, idx: usize, msg: &Binary) -> Result<Binary,
     if !w.inst[idx] {
         return Err("not instantiated".to_string());
     }
-    match catch_unwind(AssertUnwindSafe(|| call_query(w, idx, msg))) {
+    match guarded(|| call_query(w, idx, msg)) {
         Ok(r) => r,
-        Err(_) => Err("panic".to_string()),
+        Err(()) => Err("panic".to_string()),
     }
 }
 
@@ -609,6 +739,7 @@ fn q_err(msg: &str) -> QuerierResult {
 
 impl<'a> WorldQuerier<'a> {
     fn bank(&self, q: BankQuery) -> QuerierResult {
+        note_env();
         match q {
             BankQuery::Balance { address, denom } => {
                 let amount = self.w.balance(&address, &denom);
@@ -638,6 +769,7 @@ impl<'a> WorldQuerier<'a> {
     }
 
     fn staking(&self, q: StakingQuery) -> QuerierResult {
+        note_env();
         match q {
             StakingQuery::BondedDenom {} => {
                 q_ok(&BondedDenomResponse { denom: BOND_DENOM.to_string() })
@@ -705,6 +837,7 @@ impl<'a> WorldQuerier<'a> {
     }
 
     fn swap_query(&self, msg: &Binary) -> QuerierResult {
+        note_env();
         let q: SwapQueryMsg = match from_json(msg) {
             Ok(q) => q,
             Err(e) => return q_err(&e.to_string()),
@@ -741,6 +874,7 @@ impl<'a> WorldQuerier<'a> {
     }
 
     fn oracle_query(&self, msg: &Binary) -> QuerierResult {
+        note_env();
         let q: OracleQueryMsg = match from_json(msg) {
             Ok(q) => q,
             Err(e) => return q_err(&e.to_string()),
@@ -857,11 +991,11 @@ impl<'w> Executor<'w> {
                 let env = w.env(target);
                 let info =
                     MessageInfo { sender: Addr::unchecked(sender), funds: funds.to_vec() };
-                let r = catch_unwind(AssertUnwindSafe(|| call_execute(w, idx, env, info, msg)));
+                let r = guarded(|| call_execute(w, idx, env, info, msg));
                 let resp = match r {
                     Ok(Ok(resp)) => resp,
                     Ok(Err(e)) => return Err(e),
-                    Err(_) => return Err("panic".to_string()),
+                    Err(()) => return Err("panic".to_string()),
                 };
                 resp.messages.into_iter().map(|s| s.msg).collect()
             }
@@ -1030,21 +1164,23 @@ impl<'w> Executor<'w> {
 }
 
 /// One atomic transaction: root wasm message `(sender, target, msg, funds)`.
-/// Ok(trace) on success; on failure the world is restored and Err(reason) returned.
+/// Ok(trace) on success; on failure the world is restored and Err((reason, partial trace))
+/// returned (the partial trace is for diagnostics only).
 pub fn run_tx(
     world: &mut World,
     sender: &str,
     target: &str,
     msg: &Binary,
     funds: &[Coin],
-) -> Result<Vec<String>, String> {
+) -> Result<Vec<String>, (String, Vec<String>)> {
     let snapshot = world.clone();
     let mut ex = Executor { world, trace: Vec::new() };
     match ex.exec_wasm(sender, target, msg, funds, 0) {
         Ok(()) => Ok(ex.trace),
         Err(e) => {
+            let partial = std::mem::take(&mut ex.trace);
             *world = snapshot;
-            Err(e)
+            Err((e, partial))
         }
     }
 }
@@ -1060,14 +1196,14 @@ where
         let w: &World = &*world;
         let api = api();
         let querier = WorldQuerier { w };
-        let mut storage = StoreRef(&w.stores[idx]);
+        let mut storage = StoreRef::new(w, idx);
         let env = w.env(ADDRS[idx]);
         let info = MessageInfo { sender: Addr::unchecked(sender), funds: vec![] };
-        catch_unwind(AssertUnwindSafe(|| {
+        guarded(|| {
             let deps =
                 DepsMut { storage: &mut storage, api: &api, querier: QuerierWrapper::new(&querier) };
             f(deps, env, info)
-        }))
+        })
     };
     match r {
         Ok(Ok(_resp)) => {
@@ -1078,7 +1214,7 @@ where
             world.stores[idx].clear();
             Err(e)
         }
-        Err(_) => {
+        Err(()) => {
             world.stores[idx].clear();
             Err("panic".to_string())
         }
